@@ -36,6 +36,7 @@ def run(chk: Check) -> None:
     R = Resolver(ix)
     run_shard(chk, ix)
     run_meta_ex_after_meta(chk, ix)
+    run_sqlite_write(chk, ix)
 
     # ---------------- R04.1
     r1 = chk.rule("R04.1", "file store publishes atomically: write to a fresh temporary, os.replace onto the final name, OSError => return False; no other writer of cache records", floor=3)
@@ -620,3 +621,33 @@ def run_meta_ex_after_meta(chk: Check, ix) -> None:
                 r7.ok(key, f.loc(call))
             else:
                 r7.violation(key, f.loc(call), "the interface phase hands the meta file name to the implementation phase regardless of whether the new meta record was written (or the old meta_ex removed): the implementation phase then writes the new meta_ex next to the old meta")
+
+
+def run_sqlite_write(chk: Check, ix) -> None:
+    """R04.8: the time stamp of a sqlite record is that of its last write."""
+    import re as _re
+    r8 = chk.rule("R04.8", "SqliteMetadataStore.write stores the (path, mtime, data) triple in a statement that replaces all three columns of an existing row, and passes the mtime it computed; getmtime reads that column: CacheMeta.data_mtime is the only link between a meta record and its data record, so a rewritten data record must carry a new time stamp", floor=2)
+    sq = ix.cls("mypy.metastore.SqliteMetadataStore")
+    w = sq.methods["write"]
+    execs = [c for c in ast.walk(w.node) if isinstance(c, ast.Call) and call_name(c) == "execute" and c.args and isinstance(c.args[0], ast.Constant) and isinstance(c.args[0].value, str)]
+    if len(execs) != 1:
+        raise AnalysisError("SqliteMetadataStore.write: single SQL statement expected")
+    sql = " ".join(execs[0].args[0].value.upper().split())
+    params = [norm(e) for e in execs[0].args[1].elts] if len(execs[0].args) > 1 and isinstance(execs[0].args[1], ast.Tuple) else []
+    cols = _re.search(r"INTO \w+\s*\(([^)]*)\)", sql)
+    colset = [x.strip() for x in cols.group(1).split(",")] if cols else []
+    replaces_all = "INSERT OR REPLACE" in sql or sql.startswith("REPLACE")
+    upsert = _re.search(r"DO UPDATE SET (.*)$", sql)
+    if upsert:
+        assigned = {a.split("=")[0].strip() for a in upsert.group(1).split(",")}
+        replaces_all = {"MTIME", "DATA"} <= assigned
+    key = "SqliteMetadataStore.write replaces path, mtime and data of an existing row"
+    if set(colset) >= {"PATH", "MTIME", "DATA"} and replaces_all and "mtime" in params:
+        r8.ok(key, w.loc(execs[0]))
+    else:
+        r8.violation(key, w.loc(execs[0]), f"statement `{sql[:90]}` with parameters {params}: an existing row keeps its old mtime (or data): a data record rewritten by a run that is then killed before the meta commit still matches the old meta's data_mtime, so the old meta validates the new data")
+    gm = sq.methods.get("getmtime")
+    if gm is not None and any(isinstance(c, ast.Constant) and c.value == "mtime" for c in ast.walk(gm.node)):
+        r8.ok("SqliteMetadataStore.getmtime reads the mtime column", gm.loc())
+    else:
+        r8.violation("SqliteMetadataStore.getmtime reads the mtime column", sq.methods["write"].loc(), "getmtime no longer returns the stored time stamp")
